@@ -434,6 +434,13 @@ func (p *Prog) calleeName(c *ssa.CallCommon) string {
 		return p.funcName(v.Fn.(*ssa.Function))
 	case *ssa.Builtin:
 		return "builtin." + v.Name()
+	case *ssa.Phi:
+		// call through a local function variable: var.<name>
+		if v.Comment != "" {
+			return "var." + v.Comment
+		}
+	case *ssa.Parameter:
+		return "param." + v.Name()
 	case *ssa.UnOp:
 		// call through a function-typed struct field: <pkg>.<Struct>.<Field>
 		if fa, ok := v.X.(*ssa.FieldAddr); ok {
